@@ -454,6 +454,47 @@ fn run(ctx: &mut Ctx) {
             );
         }
     }
+    // ---------------- family 2m: marks in front of the file x refused entries x the character before each line break
+    // a byte order mark (or another invisible character) before the first entry, an entry that book-keeping or the parser
+    // refuses, and a 1-, 2-, 3- or 4-byte character as the last character of every line of it: whatever okane makes of the
+    // mark, the diagnostic must be built without a crash
+    {
+        let marks = ["", "\u{feff}", "\u{feff}\u{feff}", "\u{200b}", "\u{feff}\n", "\u{feff}; c\n", " \u{feff}"];
+        let faults = [
+            "2024/01/01 p{E}\n  A:a{E}\n  B:b{E}\n\n",
+            "2024/01/01 p{E}\n  A  1 X = 5 X ; c{E}\n  B:b{E}\n\n",
+            "2024/01/01 p{E}\n  A  1 X ; c{E}\n  B  2 X ; c{E}\n\n",
+            "2024/01/01 fine{E}\n  A  1 X ; c{E}\n  B:b{E}\n\n2024/01/02 bad{E}\n  A  1 X\n  B  1 X ; c{E}\n",
+            "; c{E}\n2024/01/01 p{E}\n  A  1 X @ 0 Y ; c{E}\n  B:b{E}\n\n",
+            "account A:a{E}\n  alias Z{E}\n\naccount Z\n  ; c{E}\n\n",
+            "2024/01/01 p{E}\n  A  1 X ; c{E}\n  B  (1 X + ; c{E}\n",
+            "2024/01/01 fine{E}\n  A  1 X\n  B:b{E}\n",
+        ];
+        let ends = ["", "x", "\u{e9}", "\u{65e5}", "\u{1f600}", "\u{65e5}\u{672c}"];
+        for mark in marks {
+            for fault in faults {
+                for end in ends {
+                    for crlf in [false, true] {
+                        for final_newline in [true, false] {
+                            if !ctx.next_is_mine() {
+                                ctx.skip_cases(1);
+                                continue;
+                            }
+                            let mut body = fault.replace("{E}", end);
+                            if !final_newline {
+                                body = body.trim_end_matches('\n').to_string();
+                            }
+                            if crlf {
+                                body = body.replace('\n', "\r\n");
+                            }
+                            let text = format!("{}{}", mark, body);
+                            ctx.case(|| format!("mark {:?} in front of:\n{}", mark, text.escape_debug()), || exercise(&[(oka::ROOT, text.as_bytes()), ("/v/x", INCLUDED_X)], oka::ROOT));
+                        }
+                    }
+                }
+            }
+        }
+    }
     // ---------------- family 3: include graphs (in-memory)
     let mut graphs: Vec<(usize, Vec<usize>)> = vec![];
     for a in 0..31 {
